@@ -70,9 +70,19 @@ type BatchCase struct {
 	// PrepSets: the node is BUILT with this other concurrency / the other error-handling mode, and its own prep
 	// callback re-configures it (builder methods) to the case's C / Stop: the last setting before the items run wins
 	PrepSets *PrepSets `json:"prep_sets,omitempty"`
+	Odd      *OddItem  `json:"odd,omitempty"`
 	PostCtxAware bool `json:"post_ctx_aware,omitempty"` // post returns the context's error when it finds the context done (a well-behaved post)
 	FarDeadlineMs int `json:"far_deadline_ms,omitempty"` // the context carries a deadline this far away that is NOT reached (the case is discarded if it was): it must change nothing
+	AggErrs      bool `json:"agg_errs,omitempty"`      // failing attempts return errors that also wrap an empty *flyt.BatchError (an aggregate returned unconditionally): a failure like any other
 	TempErrs     bool `json:"temp_errs,omitempty"`     // failing attempts return errors that report Temporary() == true (a "transient" failure is still a failure; a cancelled run is still cancelled)
+}
+
+// OddItem: item I of a "results" batch carries no payload: it is NewResult(nil) (Kind "nil") or an error Result (Kind
+// "error") when prep hands it over — an item like any other: exec is called for it (the Any form sees nil), its
+// retries, fallback and slot are its own.
+type OddItem struct {
+	I    int    `json:"i"`
+	Kind string `json:"kind"`
 }
 
 type PrepSets struct {
@@ -282,6 +292,14 @@ func (b *batchRun) mkItems() {
 	case "results":
 		rs := make([]flyt.Result, n)
 		for i := range rs {
+			if o := b.cs.Odd; o != nil && o.I == i { // the one item without a payload of its own
+				if o.Kind == "error" {
+					rs[i] = flyt.NewErrorResult(&seedErr{b.nonce, i})
+				} else {
+					rs[i] = flyt.NewResult(nil)
+				}
+				continue
+			}
 			p := &bItem{b.nonce, i}
 			b.payloads[i] = p
 			rs[i] = flyt.NewResult(p)
@@ -352,6 +370,14 @@ func (b *batchRun) mkItems() {
 		p := &bItem{b.nonce, 0}
 		b.payloads = []any{p}
 		b.prepRet = p
+	case "single-nil-ptr": // a single value that is a nil pointer / a nil map: still one value, hence one item
+		var p *bItem
+		b.payloads = []any{p}
+		b.prepRet = p
+	case "single-nil-map":
+		var m map[string]any
+		b.payloads = []any{m}
+		b.prepRet = m
 	case "nil":
 		b.prepRet = nil
 	case "empty-results":
@@ -365,8 +391,14 @@ func (b *batchRun) mkItems() {
 
 // indexOf identifies the item a value denotes.
 func (b *batchRun) indexOf(v any) int {
+	if o := b.cs.Odd; v == nil && o != nil && o.I < len(b.payloads) && b.cs.Shape == "results" {
+		return o.I // the only item whose value is nil
+	}
 	switch x := v.(type) {
 	case *bItem:
+		if x == nil && b.cs.Shape == "single-nil-ptr" {
+			return 0
+		}
 		if x != nil && x.Nonce == b.nonce && x.I < len(b.payloads) && b.payloads[x.I] == any(x) {
 			return x.I
 		}
@@ -385,6 +417,9 @@ func (b *batchRun) indexOf(v any) int {
 			return i
 		}
 	case map[string]any:
+		if x == nil && b.cs.Shape == "single-nil-map" {
+			return 0
+		}
 		if i, ok := x["i"].(int); ok && x["nonce"] == b.nonce && i < len(b.payloads) {
 			return i
 		}
@@ -521,6 +556,13 @@ func (b *batchRun) execIdx(ctx context.Context, i int, item any) (any, error) {
 		}
 		if b.cs.TempErrs {
 			err = tempItemErr{&itemErr{b.nonce, i, a, false}}
+		}
+		if b.cs.AggErrs {
+			// the attempt reports its failure together with an (empty) aggregate of sub-step errors of the library's own type
+			err = fmt.Errorf("%w (sub-steps: %w)", &itemErr{b.nonce, i, a, false}, &flyt.BatchError{})
+			if (i+a)%3 == 0 {
+				err = fmt.Errorf("sub-steps: %w; attempt: %w", &flyt.BatchError{}, &itemErr{b.nonce, i, a, false})
+			}
 		}
 		b.mu.Lock()
 		b.errs[i] = append(b.errs[i], err)
